@@ -152,8 +152,73 @@ def judgeGas (st : DState) (fields : List String) (impl : Option Outcome) : Stri
     | _, _ => "ok"
   | _ => "ok"
 
-def judge (prop : String) (st : DState) (fields : List String) (impl : Option Outcome) : String :=
+/-- C09 / C10: token manager -/
+def judgeTm (prop : String) (st : DState) (fields : List String) (impl : Option Outcome)
+    (model : Outcome) (implMsg : String) : String :=
+  let w := st.world
+  let modelOk := match model with | .ok _ _ _ => true | _ => false
+  match fields with
+  | ["tx", src, dst, func, _egld, esdt, args] =>
+    match ofHex src, ofHex dst, parseEsdtB esdt, parseArgs args with
+    | some src, some dst, some esdt, some args =>
+      if w.kind dst != some .tokenManager then "ok" else
+      let tm := w.tms dst
+      let L := tm.flowLimit
+      let e := TokenManager.epochOf w.now
+      match prop with
+      | "C09" =>
+        let flowMsg := (implMsg.splitOn "Flow limit exceeded").length > 1
+        match func, args with
+        | "giveToken", [_d, a] =>
+          let amt := Codec.topBig a
+          let within := L == 0 || (decide (amt ≤ L) && decide (tm.flowIn e + amt ≤ tm.flowOut e + L))
+          if implOk impl && !within then "VIOLATION:inbound-transfer-beyond-flow-limit"
+          else if !implOk impl && within && flowMsg then "VIOLATION:transfer-rejected-for-flow-within-limit"
+          else "ok"
+        | "takeToken", [] =>
+          let amt := match esdt with | [(_, _, a)] => a | _ => (_egld.toNat?.getD 0)
+          let within := L == 0 || (decide (amt ≤ L) && decide (tm.flowOut e + amt ≤ tm.flowIn e + L))
+          if implOk impl && !within then "VIOLATION:outbound-transfer-beyond-flow-limit"
+          else if !implOk impl && within && flowMsg then "VIOLATION:transfer-rejected-for-flow-within-limit"
+          else "ok"
+        | "setFlowLimit", [_] =>
+          if implOk impl && !TokenManager.intersects (tm.roles src) TokenManager.FLOW_LIMITER then
+            "VIOLATION:flow-limit-changed-without-flow-limiter-role" else "ok"
+        | _, _ => "ok"
+      | _ =>
+        -- C10: every accepted operation must be one the gating rules allow
+        if implOk impl && !modelOk then
+          (if func == "giveToken" || func == "takeToken" then "VIOLATION:custody-operation-accepted-against-gating"
+           else if func == "mint" || func == "burn" then "VIOLATION:mint-burn-accepted-against-gating"
+           else "VIOLATION:role-operation-accepted-against-gating")
+        else "ok"
+    | _, _, _, _ => "ok"
+  | ["query", dst, func, _args] =>
+    match ofHex dst with
+    | some dst =>
+      if w.kind dst != some .tokenManager then "ok" else
+      let same := match impl, model with
+        | some (.ok r _ _), .ok r' _ _ => r == r'
+        | _, _ => true
+      if same then "ok" else
+      match prop, func with
+      | "C09", "flowInAmount" | "C09", "flowOutAmount" => "VIOLATION:flow-counter-not-per-epoch-sum"
+      | "C09", "getFlowLimit" => "VIOLATION:flow-limit-view-disagrees"
+      | "C10", "getAccountRoles" | "C10", "getProposedRoles" | "C10", "isMinter" =>
+        "VIOLATION:roles-differ-from-allowed-role-operations"
+      | _, _ => "ok"
+    | none => "ok"
+  | ["bal", _a, _tok] =>
+    if prop != "C10" then "ok" else
+    match impl, model with
+    | some (.okNat n), .okNat m => if n == m then "ok" else "VIOLATION:custody-or-supply-not-exact"
+    | _, _ => "ok"
+  | _ => "ok"
+
+def judge (prop : String) (st : DState) (fields : List String) (impl : Option Outcome)
+    (model : Outcome) (implMsg : String) : String :=
   match prop with
+  | "C09" | "C10" => judgeTm prop st fields impl model implMsg
   | "C15" => judgeGas st fields impl
   | "C01" | "C02" | "C03" => judgeGateway prop st fields impl
   | _ => "ok"
